@@ -114,6 +114,7 @@ use super::*;
     open spec fn end_post(pre: Self, r: Result<Value>) -> bool { r == Ok::<Value, Error>(Value::Map(pre.map)) }
 //@fn <SerializeMap for SerializeMapValue>::serialize_key
 //@fn <SerializeMap for SerializeMapValue>::serialize_value
+//@default_if_absent <SerializeMap for SerializeMapValue>::serialize_entry
     // serde's PROVIDED method `SerializeMap::serialize_entry`, which the crate does not override: its default body transcribed from
     // serde (`self.serialize_key(key)?; self.serialize_value(value)`).  A model of foreign code, not code of the crate; verified
     // against the two real methods above so that `SerializeStruct::serialize_field` (which calls it) can be checked.
@@ -122,6 +123,7 @@ use super::*;
         self.serialize_key(key)?;
         self.serialize_value(value)
     }
+//@end_default
 //@fn <SerializeMap for SerializeMapValue>::end
 //@impl_close
 //@impl_open src/value/ser.rs SerializeStruct for SerializeMapValue
